@@ -231,7 +231,9 @@ ValidBanner(b) == /\ Len(b) >= 5 /\ b[1] = "%%MatrixMarket" /\ b[2] = "matrix"
 
 \* what the reader hands back as a sparse matrix is structurally valid
 MMWellFormed(A) == A.n >= 0 /\ A.m >= 0 /\ WellFormed(A)
-DenseWellFormed(A) == A.n >= 0 /\ A.m >= 0 /\ Len(A.val) = A.n * A.m
+\* (n * m is never formed: damaged sizes may have a product that overflows TLC's integers)
+DenseSizesMatch(n, m, len) == IF n = 0 \/ m = 0 THEN len = 0 ELSE (len % m = 0 /\ len \div m = n)
+DenseWellFormed(A) == A.n >= 0 /\ A.m >= 0 /\ DenseSizesMatch(A.n, A.m, Len(A.val))
 
 \* rows rb..re-1 of a full read
 Slice(A, rb, re) == FromRows(re - rb, A.m, [r \in 1..(re - rb) |-> RowSeq(A, rb + r - 1)])
